@@ -138,4 +138,28 @@ example : Gen.BdsFns.Bds50.read_rate (some (Rs1090.Proofs.GenBds.rollVal 12)) tr
 example : Gen.BdsFns.Bds50.read_rate (some (Rs1090.Proofs.GenBds.rollVal (-12))) true 0 4 = .err .assertion := by
   decide +kernel
 
+
+open Rs1090.Proofs.GenBds in
+/-- **BDS 4,0: `read_selected` (both selected altitudes) and `read_qnh` are the model's `selectedAlt` and `qnhNum`
+    (tenths of hPa; `value as f64 * 0.1 + 800.` read exactly)** on all 2^13 codes each. -/
+theorem bds40_readers_as_modelled :
+    (∀ s v, v < 2 ^ 12 → Gen.BdsFns.Bds40.read_selected s v = Model.Bds40.selectedAlt s v) ∧
+    (∀ s v, v < 2 ^ 12 → Gen.BdsFns.Bds40.read_qnh s v = scaledN 1 10 (Model.Bds40.qnhNum s v)) :=
+  Rs1090.Proofs.GenBds.bds40_readers
+
+open Rs1090.Proofs.GenBds in
+/-- **BDS 4,4: `read_pressure` and `read_humidity` are the model's `pressure` and `humidity` (value·100 over 64)** on
+    all 2^12 / 2^7 codes (the other four readers of bds44.rs use `match` / a second read and are still digest-pinned). -/
+theorem bds44_readers_as_modelled :
+    (∀ s v, v < 2 ^ 11 → Gen.BdsFns.Bds44.read_pressure s v = Model.Bds44.pressure s v) ∧
+    (∀ s v, v < 2 ^ 6 → Gen.BdsFns.Bds44.read_humidity s v = scaledN 1 64 (Model.Bds44.humidity s v)) :=
+  Rs1090.Proofs.GenBds.bds44_readers
+
+/-- their layouts -/
+theorem bds40_44_reader_layouts :
+    Gen.BdsFns.Bds40.read_selected_layout = [("bool", 1), ("u16", 12)] ∧
+    Gen.BdsFns.Bds40.read_qnh_layout = [("bool", 1), ("u16", 12)] ∧
+    Gen.BdsFns.Bds44.read_pressure_layout = [("bool", 1), ("u16", 11)] ∧
+    Gen.BdsFns.Bds44.read_humidity_layout = [("bool", 1), ("u8", 6)] := Rs1090.Proofs.GenBds.bds40_44_layouts
+
 end Rs1090.Props.C08
